@@ -89,7 +89,16 @@ pub fn ts_out(t: u64) -> i64 {
     }
 }
 
+/// TWIN IDS ("twins": true): the ids 4, 5, 6 of a scenario are ULIDs that carry exactly the 128 bits of the UUID
+/// ids 1, 2, 3 - different ids for the library (the format is part of the id), equal as raw bytes.
+pub static TWIN_IDS: std::sync::atomic::AtomicBool = std::sync::atomic::AtomicBool::new(false);
+const TWIN_SHIFT: u64 = 3;
+
 pub fn oid_of(n: u64) -> OrderId {
+    if TWIN_IDS.load(std::sync::atomic::Ordering::Relaxed) && n > TWIN_SHIFT && n <= 2 * TWIN_SHIFT {
+        // same bytes as OrderId::from_u64(n - 3): the u64 big-endian in the high half, zero in the low half
+        return OrderId::from_ulid(ulid::Ulid::from(((n - TWIN_SHIFT) as u128) << 64));
+    }
     if n >= 1_000_000 || ULID_IDS.load(std::sync::atomic::Ordering::Relaxed) {
         // ULID flavoured ids
         OrderId::from_ulid(ulid::Ulid::from((n as u128) << 64 | 0x5555))
@@ -114,6 +123,8 @@ pub fn id_num(id: &OrderId) -> i64 {
             let v: u128 = (*u).into();
             if v & 0xFFFF_FFFF_FFFF_FFFF == 0x5555 {
                 sint((v >> 64) as u64)
+            } else if v & 0xFFFF_FFFF_FFFF_FFFF == 0 && TWIN_IDS.load(std::sync::atomic::Ordering::Relaxed) {
+                sint((v >> 64) as u64 + TWIN_SHIFT)
             } else {
                 -1
             }
